@@ -2,6 +2,7 @@
 C11 -- schemas are immutable and results do not depend on what was processed before.
 
 Proof:           lean/Stingray/Props/C11.lean (reach_step, step_out_independent, probe_history_independent, parse_deterministic;
+                 walkM_stale / maker_reuse_sizes / maker_reuse_lookup: ONE LocationMaker over any history of records = fresh makers;
                  D15_counterexample, D16_counterexample for the pinned commit)
 Tie:             (i) state inventory: extract.py lists every module-/class-level object and every statement that mutates process-wide
                  state in src/stingray; Tie/C11.state_inventory requires that list to be the reviewed one the model was written from.
@@ -18,9 +19,9 @@ import subprocess
 import sys
 from typing import Any
 
-from harness.c06 import build_record, counters_of, gen_env, tables_of
+from harness.c06 import build_record, counters_of, gen_env, kinds_token, tables_of
 from harness.common import REPO, VERIF, Check
-from harness.gen_copybook import Node, Style, TreeGen, entry_token, preorder, render, sentence_nodes
+from harness.gen_copybook import Node, Style, TreeGen, clusters_ok, entry_token, item_tokens, preorder, render, sentence_nodes
 
 
 class Worker:
@@ -190,6 +191,17 @@ def gen_op(ck: Check, pool: dict[str, Any]) -> dict[str, Any]:
     if r < 0.77:
         ck.histogram["op/load"] += 1
         return {"op": "load", "types": rng.sample(["string", "decimal", "integer", "number", "null", "boolean", "float"], 3)}
+    if 0.89 <= r < 0.92:
+        ck.histogram["op/makerreuse"] += 1
+        root, text = rng.choice(pool["odo"])
+        envs = [gen_env(rng, root, rng.choice(["min", "max", "rand"])) for _ in range(rng.randint(2, 4))]
+        recs = [build_record(root, e, salt=i) for i, e in enumerate(envs)]
+        redef = [n.unique for n in preorder(root) if n.redefines and not n.is_group and n.level == 5]
+        redef += [n.redefines for n in preorder(root) if n.redefines and n.level == 5]
+        fields = list(counters_of(root)) + [t.unique for t in tables_of(root) if t.level == 5][:2] + redef[:4] + [root.children[-1].unique]
+        return {"op": "makerreuse", "text": text, "records": [r.hex() for r in recs], "fields": list(dict.fromkeys(fields)),
+                "_lens": [len(r) for r in recs],
+                "_model": f"LAY maker {kinds_token(root)} {','.join(r.hex() for r in recs)} {' '.join(item_tokens(root))}" if clusters_ok(root) else None}
     if r < 0.92:
         ck.histogram["op/read"] += 1
         root, text = rng.choice(pool["odo"])
@@ -248,6 +260,18 @@ def explore(ck: Check, n_hist: int, max_len: int) -> None:
                         ck.fail("history-dependent:bigread", f"a record read after {o['_n_before']} others ({len(o['before']) // 2} bytes) yields "
                                 f"{str(res.get('after'))[:80]} ({res.get('after_rows')} rows); read alone it yields {str(res.get('alone'))[:80]}",
                                 {"op": {k: (v if k not in ("before",) else v[:80] + "…") for k, v in public(o).items()}})
+                if o["op"] == "makerreuse":
+                    ck.oracle_evaluations += 1
+                    ends = [x.get("end") for x in res.get("reused", [])]
+                    if res.get("reused") != res.get("fresh") or ends != o["_lens"]:
+                        k = next((i for i, (a, b) in enumerate(zip(res.get("reused", []), res.get("fresh", []))) if a != b), 0)
+                        ck.fail("history-dependent:makerreuse", f"one LocationMaker laying out {len(o['records'])} records: record {k} is laid out as "
+                                f"{str(res.get('reused', [None] * (k + 1))[k])[:120]}; a fresh maker gives {str(res.get('fresh', [None] * (k + 1))[k])[:120]}; "
+                                f"record lengths written {o['_lens']}", {"op": public(o)})
+                    if o.get("_model"):
+                        reqs.append(o["_model"])
+                        impl.append(",".join(str(e) for e in ends))
+                        inputs.append({"op": public(o), "what": "sizes computed by one re-used maker"})
                 if o["op"] == "rebuild":
                     ck.oracle_evaluations += 1
                     if not (res.get("fresh") == res.get("first") == res.get("second")) or not res.get("ext_same"):
